@@ -1,6 +1,10 @@
-(* vocabulary of the regenerated handler tables of cli.handle_path_command (Gen/Cli.v) *)
+(* vocabulary of the regenerated observations of the command-line front end (Gen/Cli.v) *)
 From JP Require Export Base.Prelude.
 Record handler := { h_classes : list str; h_debug_reraise : bool; h_one_line : bool; h_exit : Z }.
+(* one fault-injection run: the library call of a phase (0 compile, 1 find, 2 load) raises an exception of the class;
+   exit status (-1: an exception left main()), whether that exception was the injected one, non-blank lines on standard
+   error, whether they contain a traceback, whether standard output stayed empty *)
+Record obs := { o_phase : nat; o_class : str; o_debug : bool; o_exit : Z; o_prop : bool; o_lines : nat; o_tb : bool; o_quiet : bool }.
 
 (* subclass relation from a (class, base) table *)
 Fixpoint base_of (tbl : list (str * str)) (c : str) : option str :=
